@@ -542,7 +542,8 @@ pub static STDOUT_LOCK: Mutex<()> = Mutex::new(());
 unsafe extern "C" { fn dup(fd: i32) -> i32; fn dup2(a: i32, b: i32) -> i32; fn close(fd: i32) -> i32; }
 /// runs f with file descriptor 1 redirected into a temp file and returns what was written.  Other test threads may
 /// print meanwhile (their lines end up here too): callers must filter by content.  The kit's own NATIVE-* lines are
-/// serialised with the same lock and cannot be swallowed.  (The suites run with --nocapture.)
+/// serialised with the same lock and cannot be swallowed.  (The suites run with --nocapture.)  libtest's own progress
+/// prefix `test <name> ... ` is removed from the captured text (see below).
 pub fn capture_stdout<F: FnOnce()>(f: F) -> String {
     use std::os::unix::io::AsRawFd;
     let _g = STDOUT_LOCK.lock().unwrap_or_else(|e| e.into_inner());
@@ -559,5 +560,11 @@ pub fn capture_stdout<F: FnOnce()>(f: F) -> String {
         out = fs::read_to_string(tmp.path()).unwrap_or_default();
         if let Err(e) = r { std::panic::resume_unwind(e); }
     }
-    out
+    // libtest's main thread reports a finished test of ANOTHER suite as `test <name> ... ` and `ok\n` in two writes; when the
+    // first lands while fd 1 is redirected, the next line printed by the code under test is glued behind it.  Strip exactly
+    // that prefix (a single path-like token between `test ` and ` ... `) so the program's own line is seen as printed.
+    out.split_inclusive('\n').map(|l| {
+        if l.starts_with("test ") { if let Some(p) = l.find(" ... ") { let name = &l[5..p];
+            if !name.is_empty() && name.chars().all(|c| c.is_ascii_alphanumeric() || c == '_' || c == ':') { return l[p + 5..].to_string(); } } }
+        l.to_string() }).collect()
 }
